@@ -1,4 +1,5 @@
 import PyxisVerif.Props.C04
+import PyxisVerif.Props.CaseLift2
 import PyxisVerif.Props.Exec
 #print axioms PyxisVerif.C04.slots
 #print axioms PyxisVerif.C04.contradiction_rejected
@@ -15,3 +16,7 @@ import PyxisVerif.Props.Exec
 #print axioms PyxisVerif.Exec.built_type_accessor
 #print axioms PyxisVerif.Exec.case_vfunc_wrappers
 #print axioms PyxisVerif.Exec.case_accessor
+#print axioms PyxisVerif.C04.case_slots
+#print axioms PyxisVerif.C04.case_placeholder_shape
+#print axioms PyxisVerif.C04.case_vftable_item
+#print axioms PyxisVerif.C04.case_wrapper_shape
